@@ -487,6 +487,71 @@ func c05scalarGeneric(rng *rand.Rand, w int) *big.Int {
 	return v.Mod(v, ref.R)
 }
 
+// c09reuse calls the MSM entry points repeatedly on the SAME slices, replacing interior points and scalars in place
+// between the calls (a caller updating one term of a long-lived vector): every call must give the sum of what the
+// slices hold at that moment.
+func c09reuse(c *mon.Ctx, pool *c09pool, n int, rng *rand.Rand) {
+	pts := make([]banderwagon.Element, n)
+	idx := make([]int, n)
+	scal := make([]*big.Int, n)
+	ls := make([]fr.Element, n)
+	for i := range pts {
+		idx[i] = rng.Intn(len(pool.el))
+		pts[i] = pool.el[idx[i]]
+		scal[i] = randScalar(rng)
+		ls[i] = FrFromBig(scal[i])
+	}
+	var acc banderwagon.Element
+	for round := 0; round < 5; round++ {
+		sum := new(big.Int)
+		for i := range pts {
+			sum.Add(sum, new(big.Int).Mul(scal[i], pool.k[idx[i]]))
+		}
+		want := ref.Mul(ref.Generator(), sum.Mod(sum, ref.R))
+		var res banderwagon.Element
+		var err error
+		entry := "ipa.MultiScalar"
+		switch round % 3 {
+		case 0:
+			res, err = ipa.MultiScalar(pts, ls)
+		case 1:
+			entry = "Element.MultiExp"
+			_, err = acc.MultiExp(pts, ls, banderwagon.MultiExpConfig{NbTasks: []int{0, 1, 4, 16}[rng.Intn(4)], ScalarsMont: true})
+			res = acc
+		default:
+			entry = "Element.MultiExp(receiver in the list)"
+			k := n / 2
+			keep := pts[k]
+			_, err = pts[k].MultiExp(pts, ls, banderwagon.MultiExpConfig{NbTasks: 2, ScalarsMont: true})
+			res, pts[k] = pts[k], keep
+		}
+		got, ok := ElemToRef(&res)
+		switch {
+		case err != nil:
+			c.Fail("error-on-equal-lengths/"+entry, err.Error(), nil)
+		case !ok || !got.Affine().OnCurve() || !ref.ClassEqual(got, want):
+			c.Fail("msm-wrong-sum-after-in-place-update/"+entry, fmt.Sprintf("%s on a slice of %d points whose interior elements were replaced in place since the previous call (round %d) != sum s_i*P_i of the current contents", entry, n, round), nil)
+		}
+		c.Eval(fmt.Sprintf("reused-slices|%s|%s|round%d", entry, nClass(n), round), n >= 2)
+		// in-place update of interior terms (never the first or the last one in even rounds)
+		for u := 0; u < 1+rng.Intn(2); u++ {
+			k := 1 + rng.Intn(n-2)
+			if round%2 == 1 {
+				k = []int{0, n - 1}[rng.Intn(2)]
+			}
+			if rng.Intn(3) != 0 {
+				idx[k] = rng.Intn(len(pool.el))
+				pts[k] = pool.el[idx[k]]
+			}
+			if rng.Intn(3) != 0 {
+				scal[k] = randScalar(rng)
+				ls[k] = FrFromBig(scal[k])
+			}
+		}
+	}
+	c.Count("msm_on_reused_slices", 5)
+}
+
 func runC09(c *mon.Ctx) {
 	mode := 0
 	fmt.Sscan(c.Config["sched"], &mode)
@@ -576,5 +641,13 @@ func runC09(c *mon.Ctx) {
 				})
 			}
 		}
+	}
+	for i, n := range []int{3, 4, 9, 33, 128, 300, 1025} {
+		if !c.Mine(i) {
+			continue
+		}
+		id := fmt.Sprintf("reused-slices/n%d", n)
+		n := n
+		c.Case(id, func() { c09reuse(c, pool, n, c.Rand(id)) })
 	}
 }
